@@ -6,7 +6,7 @@ props = [json.loads(l) for l in open(os.path.join(V, 'properties.jsonl'))]
 # id -> (category, engine, technique, level text, level note, design ref)
 T = {
  'C04': ('model_checking', 'seqmc', 'explicit-state enumeration: every (layout, content class, clock) state x every archive id x every window of the sweep is fetched through the real library and compared with a shape function written from the statement',
-         'Complete product of 10 layouts (quick; +all small layouts thorough) x 3 content classes x clock phases in 3 eras x 3 page sizes x all archive ids x all windows over the instants around the retention; ~1e7 real fetches each compared with the reference shape, plus reference-free content independence. Every best-archive window also through the clock-reading wrapper Fetch (same shape).',
+         'Complete product of 10 layouts (quick; +all small layouts thorough) x 3 content classes x clock phases in 3 eras x 3 page sizes x all archive ids x all windows over the instants around the retention; ~1e7 real fetches each compared with the reference shape, plus reference-free content independence. Every best-archive window also through the clock-reading wrapper Fetch (same shape). Layout L11 with steps 7 s / 35 s.',
          'trusted: model.FetchShape (30 lines, written from the statement), tmpfs, Go runtime. Bounds: k<=4 archives, <=16 slots (+ the multi-page layout LP), windows over instants within Rmax+2 of now plus 0/1/2^32-1.', '6 C04'),
 }
 T.update(json.load(open(os.path.join(V, 'scripts', 'manifest_table.json'))) if os.path.exists(os.path.join(V, 'scripts', 'manifest_table.json')) else {})
